@@ -135,6 +135,7 @@ pub open spec fn no_double_transparent(vs: Seq<VariantEntry>, n: int) -> bool {
 //@   before |field: &FieldEntry| ## #[verus_spec(r: TokenStream => requires true)]
 //@   before for variant in variants ## #[verus_spec(vi => invariant wcb.gps == gps_of(&item.generics), kind is Debug, use_bounds == entry_phase(level_phase(start(&item.generics), hattrs, kind), e).go, vi.seq().len() == variants@.len(), forall|i: int| 0 <= i < variants@.len() ==> *vi.seq()[i] == variants@[i], 0 <= vi.index@ <= variants@.len(), no_double_transparent(variants@, vi.index@), same(&wcb, dbg_variants_phase(entry_phase(level_phase(start(&item.generics), hattrs, kind), e), use_bounds, &gps_of(&item.generics), variants@, vi.index@)))]
 //@   before let wheres = wcb.build( ## proof! { assert(same(&wcb, dbg_variants_phase(entry_phase(level_phase(start(&item.generics), hattrs, DeriveItemKind::Debug), e), entry_phase(level_phase(start(&item.generics), hattrs, DeriveItemKind::Debug), e).go, &gps_of(&item.generics), variants@, variants@.len() as int))); }
+//@   before let expr = build_debug_expr( ## proof! { assert(variant.fields@ == variants@[vi.index@ as int].fields@); }
 //@ end
 verus! {
 pub open spec fn has_value(h: &HelperAttributes) -> bool { h.default matches Some(a) && a.value is Some }
